@@ -13,6 +13,7 @@ GHOST(unsigned long, QRS)            /* reshape: the inferred extent numel / pro
 GHOST_ARR(unsigned long, PS, 10)   /* PS[i] = src[0]*...*src[i-1]                        (left fold as in index::product)   */
 GHOST_ARR(unsigned long, PD, 10)   /* PD[j] = product of (size_t)dst[t], t<j, dst[t]!=-1 (left fold, PD[0]=1)               */
 GHOST_ARR(int, CN, 10)             /* CN[j] = #{t<j : dst[t]==-1}                                                            */
+GHOST_ARR(int, NB, 10)             /* NB[j] = 1 iff no dst[t], t<j, is < -1 (used by the loop contract of the repaired shape_reshape) */
 GHOST_ARR(int, VT, 10)             /* VT[j] = 1 iff every axes[t], t<j, lies in [-ndim, ndim)                                */
 
 #define C03_INT_MAX 2147483647L
@@ -182,6 +183,13 @@ static inline int trace_PD(svi_t dst)
   }
   return ok;
 }
+static inline int trace_NB(svi_t dst)
+{
+  int ok = GHOST_DEF(NB[0], 1);
+  for (unsigned long t = 0; t < CAP; t++)
+    ok = ok && GHOST_DEF(NB[t + 1], (NB[t] && (t >= SV_LEN(dst) || SV_AT(dst, t) >= -1)) ? 1 : 0);
+  return ok;
+}
 /* callable definitions (independent loops), tied to the traces in the postconditions */
 static inline int spec_count_m1(svi_t dst)
 {
@@ -243,7 +251,7 @@ static inline int def_QRS(sv_t src, svi_t dst)
 }
 static inline int pre_verif_shape_reshape(sv_t src, svi_t dst)
 {
-  return SV_LEN(src) <= CAP && 1UL <= SV_LEN(dst) && SV_LEN(dst) <= CAP && trace_PS(src) && trace_PD(dst)
+  return SV_LEN(src) <= CAP && 1UL <= SV_LEN(dst) && SV_LEN(dst) <= CAP && trace_PS(src) && trace_PD(dst) && trace_NB(dst)
       && def_QRS(src, dst)
       /* instance of the theorem  b != 0 ==> b % b == 0  on the ghost-bound terms (UF mode knows no such axiom) */
       && (PD[SV_LEN(dst)] == 0UL || PS[SV_LEN(src)] != PD[SV_LEN(dst)] || MOD_ul(PS[SV_LEN(src)], PD[SV_LEN(dst)]) == 0UL)
@@ -262,7 +270,7 @@ static inline int post_verif_shape_reshape(sv_t src, svi_t dst, opt_svi_t ret)
 /* crash freedom for *every* argument (any extents, any rank <= CAP, empty target included), bit-precise */
 static inline int pre_verif_shape_reshape_safe(sv_t src, svi_t dst)
 {
-  return SV_LEN(src) <= CAP && SV_LEN(dst) <= CAP && trace_PS(src) && trace_PD(dst) && def_QRS(src, dst)
+  return SV_LEN(src) <= CAP && SV_LEN(dst) <= CAP && trace_PS(src) && trace_PD(dst) && trace_NB(dst) && def_QRS(src, dst)
       && PS[SV_LEN(src)] <= (unsigned long)C03_INT_MAX;
 }
 static inline int post_verif_shape_reshape_safe(sv_t src, svi_t dst, opt_svi_t ret)
